@@ -16,6 +16,7 @@
 #include <photon/photon.h>
 #include <photon/thread/thread.h>
 #include <photon/thread/thread11.h>
+#include <photon/thread/stack-allocator.h>
 #include <photon/common/alog.h>
 #include <photon/thread/go.h>
 #include <cstdio>
@@ -75,6 +76,7 @@ static std::string run_case(const std::string& line) {
     if (secs.size() < 2) return "BADCASE";
     std::istringstream hs(secs[0]);
     std::string kind; hs >> kind;
+    if (!kind.empty() && kind.back() == 'x') kind.pop_back();   // "Ux"/"Bx": tag for the model only
     size_t cap = 0;
     if (kind == "B") { if (!(hs >> cap) || cap == 0) return "BADCASE"; }
     else if (kind != "U") return "BADCASE";
@@ -139,6 +141,7 @@ static std::string run_case(const std::string& line) {
 int main(int argc, char** argv) {
     if (argc < 2) { fprintf(stderr, "usage: %s <casefile>\n", argv[0]); return 2; }
     log_output_level = ALOG_FATAL + 1;
+    photon::use_pooled_stack_allocator();      // no mmap/munmap per thread
     if (photon::vcpu_init() < 0) { fprintf(stderr, "vcpu_init failed\n"); return 3; }
     std::ifstream in(argv[1]);
     std::string line;
@@ -147,5 +150,6 @@ int main(int argc, char** argv) {
         printf("%s\n", run_case(line).c_str());
         fflush(stdout);
     }
-    return 0;
+    fflush(stdout);
+    _exit(0);                                  // abandoned threads must not be waited for
 }
